@@ -647,12 +647,20 @@ def run(ctx):
         rule5_owner(ctx, fl)
         rule6_nodrop(ctx, fl)
         rule7_recentre(ctx, views)
+        from . import c16
+        with ctx.shared({'C16.10': 'C02.12'}, floor=4,
+                        doc='a yielding thread re-queues itself behind the threads that are already runnable on its worker (shared with '
+                            'C16.10): with the head insertion two yielders hand the worker to each other and a third runnable thread in '
+                            'the same queue is never resumed although it was never removed'):
+            c16.rule10_yield(ctx, fl)
 
 
 WSQ = 'src/myth_wsqueue_func.h'
 NAT = 'src/myth_if_native.c'
 SCHED = 'src/myth_sched_func.h'
 MUTANTS = [
+    {'name': 'yield re-queues the yielder at the head (seed3 C02/m1)', 'expect': 'C02.12',
+     'edits': [('src/myth_sched_func.h', "  myth_queue_put(&env->runnable_q, this_thread);\n  env->this_thread = next_thread;", "  myth_queue_push(&env->runnable_q, this_thread);\n  env->this_thread = next_thread;")]},
     {'name': 'wsapi push drops the thread (sweep M0661)', 'expect': 'C02.10',
      'edits': [('src/myth_if_native.c', "  myth_running_env_t env=myth_get_current_env();\n  myth_queue_push(&env->runnable_q,th);\n}", "  myth_running_env_t env=myth_get_current_env();\n  (void)env; (void)th;\n}")]},
     {'name': 'pop returns without reading the claimed slot (sweep M0449)', 'expect': 'C02.4',
